@@ -79,6 +79,7 @@ def run(tier="quick", seed=0):
                 hi = cons.upper_bound.min().item()
                 for mag in mags:
                     v = lo + mag if math.isfinite(lo) else hi - mag
+                    v = torch.tensor(v, dtype=dt).item()  # the value as representable in this dtype (lo + 1e-7 IS the bound in float32 for lo = 2)
                     if not (lo < v < hi):
                         continue
                     cur = getattr(m, prop)
